@@ -69,6 +69,18 @@ CHECKS = {
              'the coloured session printed is pasted back with its escapes while the plain text is typed in the plain session - the sessions must stay equal.',
         note='Nothing in this property depends on a schedule; the simulator contributes exact replay and fault injection. Input chatter is ESC-free.',
         technique=TECH + '; two-configuration replay differential'),
+    'C13': dict(level='exploration', ref='4 C13',
+        text='One byte stream is played through -l FILE, -p and -r PROG ARGS. In run mode subprocess.run is a simulated child writing to a simulated pipe; the helper thread is the real threading.Thread of run_program, '
+             'parked and released one at a time at each sync point (child write / exit / close of the write end / reader raw read) as the seeded scheduler decides, with pipe capacities 16 B..64 KiB, write sizes from 1 byte, exit statuses 0..255 and ARGS made of wayland-debug\'s own option spellings. '
+             'Displays must be equal line for line; argv verbatim, WAYLAND_DEBUG=1, inherited environment, untouched stdout, every byte consumed before the prompt, exit status, no deadlock.',
+        note='Trusted: the pipe/child model (EOF only when every holder of the write end has closed it). thread.join(timeout=1) is the only real-time element left.',
+        technique=TECH + '; baton-passing thread schedules over a simulated pipe'),
+    'C18': dict(level='exploration', ref='4 C18',
+        text='Fault injection proper: well-formed simulated streams mutated by 1-20 transport faults (drop, dup, swap, tear, 64 KiB line, 5000-digit number, id 0, hostile look-alike lines, bit flips, inserted/deleted bytes, invalid UTF-8, NUL, truncation; random subset of kinds per run) '
+             'in file, pipe (strict and surrogateescape stdin) and run mode: the run must end normally, consume the input to EOF, close every opened connection, within a wall budget. Generated matcher texts (alphabet soup, mutated valid matchers, deep nesting, Unicode) go through matcher.parse, the four commands and -f/-b; '
+             'accepted matchers must print, simplify and evaluate on every recorded message of a faulty session. Printable command lines are typed at arbitrary session states.',
+        note='The tool reporting an internal error on its own output and carrying on is not an abort. EOF at the prompt and a missing program are outside the property.',
+        technique=TECH),
 }
 
 NOT_APPLICABLE = [
